@@ -57,6 +57,8 @@ def typeOfC : CExpr → CT
   | .call _ _ ret _ => ret
   | .stmtexpr t _ _ => t
   | .seqexpr _ _ _ _ val => typeOfC val
+  | .callx _ _ _ ret _ => ret
+  | .xmacro _ _ ret => ret
 
 /-- 6.3.1.3 on bit patterns: narrowing keeps the low bits, widening sign-extends iff the SOURCE is signed. -/
 def convBits (src dst : CT) {n : Nat} (x : BitVec n) : BitVec dst.width :=
@@ -193,6 +195,8 @@ def evalC (ms : MacroSem) (σ : MState) : CExpr → Except Stuck Val
   | .call _ _ _ _ => .error (.undef "hybrid: use evalCH")
   | .stmtexpr _ _ _ => .error (.undef "hybrid: use evalCH")
   | .seqexpr _ _ _ _ _ => .error (.undef "hybrid: use evalCH")
+  | .callx _ _ _ _ _ => .error (.undef "hybrid: use evalCH")
+  | .xmacro _ _ _ => .error (.undef "pass-through macro: use evalCH")
 def evalCArgs (ms : MacroSem) (σ : MState) : List CExpr → List CT → Except Stuck (List Val)
   | [], _ => .ok []
   | _ :: _, [] => .error (.sort "macro arity")
